@@ -5,6 +5,7 @@ import os
 
 from .. import common as C
 from .. import grouplab as G
+from .. import shimlab as S
 
 ID = "C13"
 LEVEL = "model_checking"
@@ -14,7 +15,7 @@ RULE = ("(c) schedules: for a tree whose 5 (quick) / 6 (thorough) files all pass
         "seam at a time, plus {identity, reverse}^4 across the seams, and the same for a tree with hard links next to a copy under "
         "--rf-under 3 / --rf-over 2 / --rf-under 2 (all 5! orders per seam); (a) every --threads spec name in {none, main, "
         "default, ssd} x (r,s) in {0,1,2,64}^2 and pairs main:x + default:y; (b) every permutation of 3-4 roots and "
-        "--stdin, and overlapping roots (r, r/sub) in both orders x walking-pool sizes x {--depth 1/2, --hidden, -L}; (d) hash function x --max-prefix-size x --max-suffix-size x disk kind x cache. A state is one complete "
+        "--stdin, --stdin together with --transform (fclones starts child processes that inherit its descriptors: both orders of 'child runs' / 'fclones signals the child' at every signal the run sends, by pausing the subject at the kill call), and overlapping roots (r, r/sub) in both orders x walking-pool sizes x {--depth 1/2, --hidden, -L}; (d) hash function x --max-prefix-size x --max-suffix-size x disk kind x cache. A state is one complete "
         "execution of the real binary under one schedule/configuration; transitions are the messages delivered at the "
         "seams. Invariant: report body (lengths, hashes, paths, order) byte-identical within (a)-(c); partition into "
         "groups identical within (d); every run ends within 120 s.")
@@ -50,7 +51,7 @@ SITES = ["scan", "rehash#0", "rehash#1", "rehash#2"]
 
 
 def prepare(tier):
-    C.build_hooks()
+    S.prepare()
 
 
 def cases(tier, seed):
@@ -83,6 +84,10 @@ def cases(tier, seed):
     # overlapping input paths: the result may depend neither on their order nor on the size of the walking pool
     for extra in ([], ["--depth", "1"], ["--depth", "2"], ["--hidden"], ["-L"]):
         out.append({"kind": "overlap", "tree": "overlap", "extra": extra})
+    # --stdin while fclones starts child processes (--transform): the two orders of (child runs, fclones signals it)
+    for tr in (["--transform", "cat"], ["--transform", "head -c 1000000"], ["--transform", "cat $IN"],
+               ["--transform", "fcv-tr keep - $OUT"]):
+        out.append({"kind": "stdin_child", "tree": "multi", "args": tr})
     hashes = ["metro", "blake3"] if quick else ["metro", "xxhash", "blake3", "sha256", "sha512", "sha3-256", "sha3-512"]
     cfgs = []
     for h in hashes:
@@ -209,6 +214,47 @@ def evaluate(case):
                 transitions += 1
             for sub in (("r1", "r2", "r3"), ("r3", "r1", "r2"), ("r2", "r3", "r1")):
                 pass
+        elif case["kind"] == "stdin_child":
+            base_roots = roots_of(case["tree"])
+            data = ("\n".join(base_roots) + "\n").encode()
+            args = ["group", "--min", "0", "-f", "json"] + case["args"] + ["--stdin"]
+
+            def judge(label, res):
+                nonlocal states
+                states += 1
+                keys.append([case["kind"], case["tree"], label])
+                feat = {"what_varied": "stdin_vs_arguments", "transform": True, "schedule": label.split(":")[1]}
+                if res["timeout"]:
+                    viol.append(dict(feat, kind="hang", detail="%s did not finish" % args))
+                    return
+                try:
+                    rep = C.parse_json_report(res["out"]) if res["rc"] == 0 else None
+                except Exception as e:
+                    rep = None
+                    res = dict(res, err=res["err"] + " / report does not parse: %s; stdout starts with %r" % (e, res["out"][:80]))
+                if rep is None:
+                    viol.append(dict(feat, kind="run_failed", detail="%s (%s): rc=%s %s" % (args, label, res["rc"], res["err"][-300:])))
+                    return
+                body = [(g["len"], g["hash"], [C.u(p) for p in g["paths"]]) for g in rep.groups]
+                if body != base:
+                    viol.append(dict(feat, kind="body_differs",
+                                     detail="%s with the input paths on stdin (%s): %d groups instead of %d: %s" % (
+                                         args, label, len(body), len(base), [(l, [os.path.basename(x) for x in p]) for l, h, p in body][:4])))
+
+            rec = S.run_with_shim(sc, args, [sc.tree], "p", stdin=data, env_extra=env0)
+            judge("stdin_child:free:" + " ".join(case["args"]), rec)
+            transitions += 1
+            import time
+            for k, ev in enumerate(rec["events"]):
+                if ev.call != "kill":
+                    continue
+                # the child gets 150 ms before the signal is sent: it runs until it blocks or exits
+                res = S.run_with_shim(sc, args, [sc.tree], "p", stdin=data, env_extra=env0, mode="pause", at=k,
+                                      on_pause=lambda: time.sleep(0.15))
+                if not res["paused"]:
+                    raise C.MachineryError("did not pause at event %d" % k)
+                judge("stdin_child:child_first@%d:%s" % (k, " ".join(case["args"])), res)
+                transitions += 1
         elif case["kind"] == "overlap":
             base_roots = roots_of(case["tree"])
             for order in (base_roots, list(reversed(base_roots)), base_roots + ["r/sub/deep"], ["r/sub/deep"] + base_roots):
@@ -233,7 +279,7 @@ def evaluate(case):
 
 def finish(stats, tier):
     out = []
-    for k in ("seam", "cross_seam", "threads", "roots", "config", "overlap"):
+    for k in ("seam", "cross_seam", "threads", "roots", "config", "overlap", "stdin_child"):
         if not stats["outcomes"].get(k):
             out.append("no %s case ran" % k)
     return out
